@@ -1,6 +1,10 @@
 package an
 
-import "strings"
+import (
+	"fmt"
+	"sort"
+	"strings"
+)
 
 func init() {
 	Registry["C01"] = runC01
@@ -56,6 +60,8 @@ func runC05(w *World) *Result {
 	OpTableRule(w, batch, r, "R-C05-optable")
 	SiblingCells(w, bash, batch, r, "R-C05-optable")
 	AllocRule(w, batch, r, "R-C05-alloc")
+	r.Rule("R-C05-blockexit", "Batch: a line closing a parenthesised block that held user statements is never reached by falling through: the line before it is an unconditional goto to a label kept on the construct's stack", 3)
+	c05BlockExit(w, batch, r)
 	// numcmp over all lines incl. helper bodies
 	seen := map[string]bool{}
 	for _, l := range batch.Lines {
@@ -87,6 +93,7 @@ func runC02(w *World) *Result {
 	r.NotDecided = "actual isolation at run time when user names collide with the mangling scheme (C10); values through nested calls."
 	r.Rule("R-C02-mangle", "helper stored and read under the same (mangled) name within one converter method", 30)
 	r.Rule("R-C02-reg", "return/argument registers: writer and reader agree on stem and index; reads follow the call line", 5)
+	r.Rule("R-C02-frame", "the numeric prefix of function-local names is a counter advanced only by FuncStart, before its first line", 2)
 	r.Rule("R-C02-store", "multi-target assignment: all right-hand sides are evaluated (and snapshotted) before the first store", 1)
 	c02Store(w, r)
 	r.Rule("R-C02-ident", "statements referring to existing variables carry the looked-up definition; lookups find file-prefixed globals from any scope", 6)
@@ -99,6 +106,7 @@ func runC02(w *World) *Result {
 		}
 		MangleRule(w, b, r, "R-C02-mangle")
 		RegisterRule(w, b, r, "R-C02-reg")
+		FrameRule(w, b, r, "R-C02-frame")
 	}
 	return r
 }
@@ -132,6 +140,64 @@ func c02Store(w *World, r *Result) {
 			r.Bad(rule, key, w.Pos(d.Fn.Pos()), "the driver evaluates and stores target by target ("+bad+"): in 'a, b = b, a' the second right-hand side already sees the new value of a (prints 2 2 instead of 2 1)")
 		} else {
 			r.Ok(rule, key, w.Pos(d.Fn.Pos()), "all right-hand sides are evaluated before the first store")
+		}
+	}
+}
+
+// c05BlockExit: user statements inside an if/else/for body may define labels (nested
+// loops, nested ifs), and a label ends the parenthesised block for cmd's parser: a body
+// that then falls through would run the ") else (" / ")" line as a command of its own.
+// Every converter method that runs after such a body therefore leaves it with an
+// unconditional goto before it emits the closing line.
+func c05BlockExit(w *World, b *Backend, r *Result) {
+	rule := "R-C05-blockexit"
+	var names []string
+	for n := range b.X.Methods {
+		if afterBlockMethods[n] {
+			names = append(names, n)
+		}
+	}
+	sort.Strings(names)
+	for _, name := range names {
+		mf := b.X.Methods[name]
+		for i, em := range mf.Emissions {
+			if em.Helper != "" {
+				continue
+			}
+			txt := strings.TrimSpace(em.T.String())
+			if !strings.HasPrefix(txt, ")") {
+				continue
+			}
+			key := fmt.Sprintf("blockexit:batch:%s:%s", name, strings.SplitN(txt, "\"", 2)[0])
+			key = strings.TrimSpace(key)
+			pos := w.Pos(em.Pos)
+			// the emission directly before it on every path
+			var prev *Emission
+			for j := i - 1; j >= 0; j-- {
+				if PathCompatible(mf.Emissions[j], em) {
+					prev = &mf.Emissions[j]
+					break
+				}
+			}
+			switch {
+			case prev == nil:
+				r.Bad(rule, key, pos, fmt.Sprintf("%s emits %q as its first line: the body before it falls through into the closing line, which cmd runs as a separate command once a label inside the body has ended the block", name, txt))
+			case len(prev.Conds) > len(em.Conds):
+				r.Bad(rule, key, pos, fmt.Sprintf("the goto before %q is only emitted under %v", txt, prev.Conds))
+			default:
+				pt := prev.T
+				ok := len(pt) == 2
+				if ok {
+					l, isLit := pt[0].(Lit)
+					h, isHole := pt[1].(Hole)
+					ok = isLit && isHole && strings.ToLower(l.S) == "goto " && strings.Contains(h.Origin, "[*]")
+				}
+				if ok {
+					r.Ok(rule, key, pos, fmt.Sprintf("%q is preceded by %s", txt, pt.String()))
+				} else {
+					r.Bad(rule, key, pos, fmt.Sprintf("the line before %q is %s, not an unconditional goto to a label read from the construct's stack entry: the body falls through into the closing line", txt, pt.String()))
+				}
+			}
 		}
 	}
 }
